@@ -149,27 +149,27 @@ Definition ctr_e (cur next pers : list Fe) : list Fe := ctr 0 cur next.
 Definition aux_e (mcur mnext acur anext pers rands : list Fe) : list Fe :=
   [fsub O (nth 0 anext (fzero O)) (fadd O (nth 0 acur (fzero O)) (fmul O (nth 0 rands (fzero O)) (nth 0 mcur (fzero O))))].
 Definition airx : @AirDesc Fe :=
-  mkAir 2 1 g2 [] [mkBGroup 0 1 [mkBCons 0 [e 0] (e 1)]] 1 [mkBGroup 0 1 [mkBCons 0 [e 0] (e 1)]].
-Definition coinsx : @Coins Fe := mkCoins [e 23] [e 11; e 29] [e 13; e 31] (e 5) [e 17; e 37] [e 19] [e 3; e 4].
-Definition envx : @Env Fe := mkEnv 7 [[1%Z; 2%Z]] true true true true (fun _ => true).
-Definition proof0 (evals : list Fe) : @ProofObj Fe := mkProof 7 [1%Z; 2%Z] [e 21] [e 34] evals [[e 1]; [e 2]] [[e 8]; [e 9]] None.
+  mkAir 2 1 g2 [] [mkBGroup 0 1 [mkBCons 0 [e 0] (e 1)]] 1 [mkBGroup 0 1 [mkBCons 0 [e 0] (e 1)]] None.
+Definition coinsx : @Coins Fe := mkCoins [e 23] [e 11; e 29] [e 13; e 31] (e 5) [e 17; e 37] [e 19] [e 3; e 4] None.
+Definition envx : @Env Fe := mkEnv 7 [[1%Z; 2%Z]] true true true true true (fun _ => true).
+Definition proof0 (evals : list Fe) : @ProofObj Fe := mkProof 7 [1%Z; 2%Z] [e 21] [e 34] evals [[e 1]; [e 2]] [[e 8]; [e 9]] None None.
 Definition proofx : @ProofObj Fe := proof0 [evaluate_constraints O ctr_e aux_e airx coinsx (proof0 [])].
-Definition proofy : @ProofObj Fe := mkProof 7 [1%Z; 2%Z] [e 22] [e 34] (p_ood_evals proofx) [[e 1]; [e 2]] [[e 8]; [e 9]] None.
+Definition proofy : @ProofObj Fe := mkProof 7 [1%Z; 2%Z] [e 22] [e 34] (p_ood_evals proofx) [[e 1]; [e 2]] [[e 8]; [e 9]] None None.
 Definition auxo : @AuxOpen Fe := mkAuxOpen [e 41] [e 43] [[e 5]; [e 6]].
 Definition proof0a (evals : list Fe) : @ProofObj Fe :=
-  mkProof 7 [1%Z; 2%Z] [e 21] [e 34] evals [[e 1]; [e 2]] [[e 8]; [e 9]] (Some auxo).
+  mkProof 7 [1%Z; 2%Z] [e 21] [e 34] evals [[e 1]; [e 2]] [[e 8]; [e 9]] (Some auxo) None.
 Definition proofxa : @ProofObj Fe := proof0a [evaluate_constraints O ctr_e aux_e airx coinsx (proof0a [])].
 (* one auxiliary out-of-domain value changed *)
 Definition proofya : @ProofObj Fe :=
-  mkProof 7 [1%Z; 2%Z] [e 21] [e 34] (p_ood_evals proofxa) [[e 1]; [e 2]] [[e 8]; [e 9]] (Some (mkAuxOpen [e 42] [e 43] [[e 5]; [e 6]])).
+  mkProof 7 [1%Z; 2%Z] [e 21] [e 34] (p_ood_evals proofxa) [[e 1]; [e 2]] [[e 8]; [e 9]] (Some (mkAuxOpen [e 42] [e 43] [[e 5]; [e 6]])) None.
 
 Example verify_accept_instance :
   verify_model O ctr_e aux_e envx airx coinsx proofx = Accept /\
   verify_model O ctr_e aux_e envx airx coinsx proofy = RejOod /\
-  verify_model O ctr_e aux_e (mkEnv 9 [[1%Z; 2%Z]] true true true true (fun _ => true)) airx coinsx proofx = RejField /\
-  verify_model O ctr_e aux_e (mkEnv 7 [[1%Z; 3%Z]] true true true true (fun _ => true)) airx coinsx proofx = RejOptions /\
-  verify_model O ctr_e aux_e (mkEnv 7 [[1%Z; 2%Z]] true true false true (fun _ => true)) airx coinsx proofx = RejTraceQuery /\
-  verify_model O ctr_e aux_e (mkEnv 7 [[1%Z; 2%Z]] true true true true (fun _ => false)) airx coinsx proofx = RejFri.
+  verify_model O ctr_e aux_e (mkEnv 9 [[1%Z; 2%Z]] true true true true true (fun _ => true)) airx coinsx proofx = RejField /\
+  verify_model O ctr_e aux_e (mkEnv 7 [[1%Z; 3%Z]] true true true true true (fun _ => true)) airx coinsx proofx = RejOptions /\
+  verify_model O ctr_e aux_e (mkEnv 7 [[1%Z; 2%Z]] true true true false true (fun _ => true)) airx coinsx proofx = RejTraceQuery /\
+  verify_model O ctr_e aux_e (mkEnv 7 [[1%Z; 2%Z]] true true true true true (fun _ => false)) airx coinsx proofx = RejFri.
 Proof. split; [|split; [|split; [|split; [|split]]]]; vm_compute; reflexivity. Qed.
 
 (* the same with an auxiliary segment: accepted; an auxiliary out-of-domain value changed: RejOod; the auxiliary terms do
